@@ -31,8 +31,9 @@ pub enum Event {
     /// buffer (without failing the current thread).
     StoredError { ip: u32, error: String },
 
-    /// The current thread was retired while positioned at `ip`.
-    Retire { ip: u32, at_limit: bool, out_of_gas: bool, killed: bool },
+    /// The current thread was retired while positioned at `ip`. `gas` is the gas the thread has
+    /// consumed (read from the thread itself, not derived from the retirement decision).
+    Retire { ip: u32, gas: usize, at_limit: bool, out_of_gas: bool, killed: bool },
 
     /// The current thread (positioned at `from`) was forked to `to`.
     Fork { from: u32, to: u32 },
